@@ -248,7 +248,11 @@ func (n *LocalNode) transferKeysUpward(ctx context.Context, prevPredecessor, new
 		return
 	}
 
-	keys, err = n.kv.RangeKeys(ctx, low.ID(), newPredecessor.ID())
+	// hand over every key we hold that the new predecessor is now responsible for, i.e. everything
+	// outside of (newPredecessor, n]. Using prevPredecessor as the lower bound is not enough: it may
+	// have left gracefully moments ago (its keys were imported here) without our pointer being updated yet,
+	// and the keys in its old range would be stranded on this node where lookups no longer reach them.
+	keys, err = n.kv.RangeKeys(ctx, n.ID(), newPredecessor.ID())
 	if err != nil {
 		return
 	}
